@@ -17,6 +17,8 @@ STRINGS = ["x", "", "a b", "<&>\"'", "é ü", "tab\there", "line\nbreak", "\U00
 SAME_RESOURCE_MOVES = False  # set by checks whose domain excludes moves between resources
 MEMBER_AGAIN = 0.0           # probability of offering a current member again to a (non-unique) attribute-link list
 PREFER_INTERLEAVED = 0.0     # probability of picking an owner whose list members are interleaved with other child kinds
+EQ_OVERRIDE = 0.0            # probability of steering a step to a list whose member class overrides equality (see eq_step)
+SCRIPT: list | None = None   # [(owner element, attribute, operation)]: a scripted history over such lists (see eq_script)
 
 
 class Relation(t.NamedTuple):
@@ -165,6 +167,20 @@ def gen_step(model, rels: list[Relation], rng: random.Random, weights: dict[str,
          "create_clash": 1, "create_nested": 2, "delete_referenced": 2, "role_set": 2, "move_over_placeholder": 2, "assign": 0}
     if weights:
         w.update(weights)
+    if SCRIPT is not None:
+        # a scripted history (equality-overriding lists: every operation in turn on every such relation)
+        while SCRIPT:
+            el, attr, op = SCRIPT.pop(0)
+            rel = next((r for r in eq_relations_of(model, el) if r.attr == attr), None)
+            st = eq_step(model, rng, w, rel=rel, op=op) if rel is not None else None
+            if st is not None:
+                return st
+        model._verif_stop = True
+        return Step("noop", None, {}, lambda: None)
+    if EQ_OVERRIDE and rng.random() < EQ_OVERRIDE:
+        st = eq_step(model, rng, w)
+        if st is not None:
+            return st
     for _ in range(50):
         rel = rng.choice(rels)
         if PREFER_INTERLEAVED and rng.random() < PREFER_INTERLEAVED:
@@ -411,3 +427,346 @@ def gen_step(model, rels: list[Relation], rng: random.Random, weights: dict[str,
         if op == "clear" and 0 < n <= 4 and rel.kind in LINKS:
             return Step("clear", rel, {}, lambda rel=rel: setattr(rel.owner, rel.attr, []))
     return Step("noop", None, {}, lambda: None)
+
+
+# ------------------------------------------------------------------ lists whose members override equality
+#
+# `ModelElement.__eq__` is element identity, but a class may override it (`@attr_equal`: EnumerationLiteral by name, the
+# ReqIF enum values / types by long_name - found here by REFLECTION, not by name): two DIFFERENT elements then compare
+# equal. A model-coupled list must still hold exactly the elements a plain Python list of the same objects would hold;
+# code that decides by `==` / `in` which member to keep, drop or skip confuses one member with the other. The steps
+# below steer histories to such lists, make two distinct members (or a member and a moved-in object) compare equal, and
+# then run the ordinary list operations on them.
+
+_EQ_OWNERS: dict = {}
+
+
+def overrides_eq(cls) -> bool:
+    from capellambse.model import _obj as O
+
+    return isinstance(cls, type) and issubclass(cls, O.ModelElement) and cls.__eq__ is not O.ModelElement.__eq__
+
+
+def eq_key(cls) -> str | None:
+    """the attribute an equality-overriding class compares by: read off the closure of the wrapper that replaced
+    `__eq__` (and of what it wraps); a guess among the usual naming attributes otherwise"""
+    f = vars(cls).get("__eq__") or cls.__eq__
+    for _ in range(6):
+        if f is None:
+            break
+        for c in getattr(f, "__closure__", None) or ():
+            try:
+                v = c.cell_contents
+            except ValueError:
+                continue
+            if isinstance(v, str) and v.isidentifier() and hasattr(cls, v):
+                return v
+        f = getattr(f, "__wrapped__", None)
+    for a in ("name", "long_name", "identifier"):
+        if hasattr(cls, a):
+            return a
+    return None
+
+
+def _declared_eq(acc) -> bool:
+    cs = [getattr(acc, "class_", None), *(getattr(acc, "classes", None) or ())]
+    return any(overrides_eq(c) for c in cs)
+
+
+def eq_owner_elements(model) -> list:
+    """XML elements that own (or may own) a list of equality-overriding objects: parents of such objects, elements
+    (and parents of link elements) that refer to them, and objects whose class declares such a list. Raw scan."""
+    import re
+
+    key = id(model)
+    if key in _EQ_OWNERS and _EQ_OWNERS[key][0] is model:
+        return _EQ_OWNERS[key][1]
+    from capellambse.model import _descriptors as D
+
+    objs = ol.all_objects(model)
+    eqids = {o.uuid for o in objs if overrides_eq(type(o))}
+    out: dict = {}
+    decl: dict = {}
+    for o in objs:
+        cls = type(o)
+        if cls not in decl:
+            decl[cls] = False
+            for a in dir(cls):
+                if a.startswith("_"):
+                    continue
+                try:
+                    acc = getattr(cls, a)
+                except Exception:
+                    continue
+                if isinstance(acc, D.WritableAccessor) and getattr(acc, "aslist", None) is not None and _declared_eq(acc):
+                    decl[cls] = True
+                    break
+        e = o._element
+        if decl[cls]:
+            out[id(e)] = e
+        if o.uuid in eqids and e.getparent() is not None:
+            out[id(e.getparent())] = e.getparent()
+    for tree in model._loader.trees.values():
+        if tree.fragment_type.name != "SEMANTIC":
+            continue
+        for e in tree.root.iter():
+            if not isinstance(e.tag, str):
+                continue
+            for k, v in e.attrib.items():
+                if k != "id" and "#" in v and any(m in eqids for m in re.findall(r"#([0-9a-f-]{36})", v)):
+                    out[id(e)] = e
+                    if e.getparent() is not None:
+                        out[id(e.getparent())] = e.getparent()
+    els = [e for e in out.values() if e.get("id")]
+    _EQ_OWNERS.clear()
+    _EQ_OWNERS[key] = (model, els)
+    return els
+
+
+def eq_relations_of(model, el) -> list[Relation]:
+    """the coupled list relations of the object at `el` that hold, or are declared to hold, equality-overriding objects"""
+    from capellambse.model import _obj as O
+
+    try:
+        model._loader.find_fragment(el)   # still part of the model?
+        owner = O.ModelElement.from_model(model, el)
+    except Exception:
+        return []
+    out = []
+    for r in discover_for(model, owner):
+        try:
+            mem = list(r.get())
+        except Exception:
+            continue
+        if _declared_eq(r.acc) or any(overrides_eq(type(m)) for m in mem):
+            out.append(r)
+    return out
+
+
+def equal_pair(members: list):
+    """positions (i, j), i < j, of two DIFFERENT members that compare equal (None when there are none)"""
+    for i, a in enumerate(members):
+        for j in range(i + 1, len(members)):
+            b = members[j]
+            if a._element is not b._element and a == b:
+                return i, j
+    return None
+
+
+EQ_SCRIPT_OPS = ("pair", "query", "setitem", "pair", "setitem", "pair", "assign", "pair", "setslice", "pair", "insert", "remove",
+                 "pair", "delitem", "pair", "setslice", "append", "query", "pair", "remove", "delitem")
+
+
+def eq_script(model, rng: random.Random, limit: int, kinds: tuple | None = None) -> list:
+    """the scripted history: for (up to `limit`) relations that hold equality-overriding objects – one per accessor
+    first – every list operation in turn, each preceded by making two distinct members compare equal"""
+    owners = eq_owner_elements(model)
+    rels = [r for el in owners for r in eq_relations_of(model, el) if kinds is None or r.kind in kinds]
+    rng.shuffle(rels)
+    rels.sort(key=lambda r: -min(len(r.get()), 2))   # lists that have two members to begin with first
+    seen: set = set()
+    first = [r for r in rels if not (id(r.acc) in seen or seen.add(id(r.acc)))]
+    rest = [r for r in rels if all(r is not f for f in first)]
+    out = []
+    for r in (first + rest)[:limit]:
+        out += [(r.owner._element, r.attr, op) for op in EQ_SCRIPT_OPS]
+    return out
+
+
+def eq_step(model, rng: random.Random, w: dict, rel: Relation | None = None, op: str | None = None) -> Step | None:
+    """one operation on a list whose members override equality, preferably with equal-but-distinct objects involved
+    (`rel` / `op` given: that operation on that relation – None when it is not possible in the current state)"""
+    owners = eq_owner_elements(model)
+    if not owners:
+        return None
+    forced_rel, forced_op = rel, op
+    for _ in range(12 if forced_rel is None else 1):
+        if forced_rel is None:
+            el = rng.choice(owners)
+            rs = eq_relations_of(model, el)
+            if not rs:
+                continue
+            rel = rng.choice(rs)
+        try:
+            lst = rel.get()
+        except Exception:
+            continue
+        members = list(lst)
+        n = len(members)
+        pair = equal_pair(members)
+        plain_contain = rel.contain and type(rel.acc).__name__ != "RoleTagAccessor"
+        eqm = [m for m in members if overrides_eq(type(m)) and eq_key(type(m))]
+        # (1) no equal-but-distinct members yet: make some (a new member with the key of an existing one; or one
+        #     member takes over the key of another one)
+        if forced_op == "pair" and (pair is not None or not eqm):
+            return None
+        if forced_op == "query":
+            if not members:
+                return None
+            donor = _eq_donor(model, rel, members, owners, rng)
+            probes = [members[0], members[-1]] + ([members[pair[1]]] if pair else []) + ([donor] if donor is not None else [])
+            return Step("query", rel, {"uuids": [getattr(p_, "uuid", None) for p_ in probes], "eq": "pair" if pair else "-"},
+                        lambda lst=lst, probes=probes, res=[]: res.extend(_query(lst, probes)))
+        if forced_op == "pair" or (forced_op is None and pair is None and eqm and rng.random() < 0.65):
+            a = rng.choice(eqm)
+            key = eq_key(type(a))
+            try:
+                val = getattr(a, key)
+            except Exception:
+                continue
+            if not isinstance(val, str):
+                continue
+            if plain_contain and (n < 2 or rng.random() < 0.5) and not getattr(lst, "fixed_length", 0):
+                kw = {key: val}
+                return Step("create", rel, {"kw": dict(kw), "bad": False, "hint": [], "eq": "create-equal"},
+                            lambda lst=lst, kw=kw, hint=(): lst.create(*hint, **kw))
+            others_ = [m for m in eqm if m._element is not a._element and type(m) is type(a)]
+            if others_:
+                b = rng.choice(others_)
+                return Step("setattr", None, {"uuid": getattr(b, "uuid", None), "attr": key, "value": val, "eq": "equalize"},
+                            lambda o=b, attr=key, v=val: setattr(o, attr, v))
+            if forced_op == "pair":
+                # a reference list with one member: bring in another object that equals it (made equal first if need be)
+                x = _eq_donor(model, rel, members, owners, rng, want_equal=True)
+                if x is None:
+                    return None
+                if not any(m == x for m in members):
+                    if type(x) is not type(a):
+                        return None
+                    SCRIPT.insert(0, (rel.owner._element, rel.attr, "append-equal")) if SCRIPT is not None else None
+                    return Step("setattr", None, {"uuid": getattr(x, "uuid", None), "attr": key, "value": val, "eq": "equalize-donor"},
+                                lambda o=x, attr=key, v=val: setattr(o, attr, v))
+                return Step("append", rel, {"uuid": getattr(x, "uuid", None), "eq": "donor"}, lambda lst=lst, x=x: lst.append(x))
+        if forced_op == "append-equal":
+            x = _eq_donor(model, rel, members, owners, rng, want_equal=True)
+            if x is None or not any(m == x for m in members):
+                return None
+            return Step("append", rel, {"uuid": getattr(x, "uuid", None), "eq": "donor"}, lambda lst=lst, x=x: lst.append(x))
+        if forced_op == "pair":
+            return None
+        # (2) an ordinary list operation, the object brought in preferably EQUAL to (but not the same as) a member
+        ops = {k: w.get(k, 0) for k in ("setitem", "assign", "insert", "append", "remove", "delitem")}
+        ops["setslice"] = w.get("setslice", 0)
+        ops["setitem"] *= 2   # item assignment goes through the accessor's whole-list `__set__`: the richest path
+        if not any(ops.values()):
+            return None
+        op = rng.choices(list(ops), list(ops.values()))[0] if forced_op is None else forced_op
+        sure = forced_op is not None   # scripted: the equal-but-distinct members are involved whenever there are any
+        x = None
+        if op in ("setitem", "insert", "append", "setslice"):
+            x = _eq_donor(model, rel, members, owners, rng)
+            if x is None and op != "setslice":
+                if forced_op is not None:
+                    return None
+                op = rng.choice(["remove", "delitem", "assign"])
+        if op == "setitem" and n > 0:
+            i = rng.randrange(-n, n)
+            if pair is not None and (sure or rng.random() < 0.5):
+                i = rng.choice(pair) - (n if rng.random() < 0.3 else 0)
+            else:
+                eqpos = [k for k, m in enumerate(members) if m == x]
+                if eqpos and rng.random() < 0.6:
+                    i = rng.choice(eqpos)   # the replaced member itself equals the object that replaces it
+            return Step("setitem", rel, {"i": i, "uuid": getattr(x, "uuid", None), "eq": "pair" if pair else "donor"},
+                        lambda lst=lst, i=i, x=x: lst.__setitem__(i, x))
+        if op == "insert":
+            i = rng.randrange(-n - 1, n + 2)
+            return Step("insert", rel, {"i": i, "uuid": getattr(x, "uuid", None), "eq": "donor"}, lambda lst=lst, i=i, x=x: lst.insert(i, x))
+        if op == "append":
+            return Step("append", rel, {"uuid": getattr(x, "uuid", None), "eq": "donor"}, lambda lst=lst, x=x: lst.append(x))
+        if op == "setslice" and (plain_contain or rel.kind == "AttrProxyAccessor") and not getattr(lst, "fixed_length", 0):
+            a = rng.randrange(0, n + 1)
+            b = rng.randrange(a, min(n, a + 2) + 1)
+            if pair is not None and (sure or rng.random() < 0.5):
+                a = rng.choice(pair)
+                b = a + 1
+            xs = [x] if x is not None and rng.random() < 0.8 else []
+            if a == b and not xs:
+                continue
+            return Step("setslice", rel, {"a": a, "b": b, "new_uuids": [getattr(v, "uuid", None) for v in xs], "uuid": getattr(xs[0], "uuid", None) if xs else None,
+                                          "eq": "pair" if pair else "donor"},
+                        lambda lst=lst, sl=slice(a, b), xs=xs: lst.__setitem__(sl, xs))
+        if op == "assign" and n >= 2 and (plain_contain or (type(rel.acc).__name__ == "LinkAccessor" and getattr(rel.acc, "tag", None))):
+            keep = rng.sample(members, rng.randrange(1, n + 1))
+            if pair is not None and (sure or rng.random() < 0.7):
+                # exactly one of the two equal members stays
+                gone = members[rng.choice(pair)]
+                stay = members[pair[0]] if gone is members[pair[1]] else members[pair[1]]
+                keep = [m for m in keep if m is not gone]
+                if not any(m is stay for m in keep):
+                    keep.append(stay)
+            rng.shuffle(keep)
+            return Step("assign", rel, {"new_uuids": [m.uuid for m in keep], "eq": "pair" if pair else "-"},
+                        lambda rel=rel, keep=keep: setattr(rel.owner, rel.attr, keep))
+        if op == "delitem" and n > 0:
+            i = rng.randrange(-n, n)
+            if pair is not None and (sure or rng.random() < 0.6):
+                i = rng.choice(pair) - (n if rng.random() < 0.3 else 0)
+            return Step("delitem", rel, {"i": i, "uuid": getattr(members[i], "uuid", None), "eq": "pair" if pair else "-"},
+                        lambda lst=lst, i=i: lst.__delitem__(i))
+        if op == "remove" and n > 0:
+            x = members[rng.randrange(n)]
+            if pair is not None and (sure or rng.random() < 0.6):
+                x = members[pair[1]]   # the LATER one of two equal members: a Python list removes the first that is equal
+            return Step("remove", rel, {"uuid": getattr(x, "uuid", None), "eq": "pair" if pair else "-"}, lambda lst=lst, x=x: lst.remove(x))
+    return None
+
+
+def _query(lst, probes: list) -> list:
+    """`x in lst` and `lst.index(x)` for every probe object (the answers; ValueError as a string)"""
+    res = []
+    for x in probes:
+        c = x in lst
+        try:
+            k = lst.index(x)
+        except ValueError:
+            k = "ValueError"
+        res.append((c, k))
+    return res
+
+
+def _eq_donor(model, rel: Relation, members: list, owners: list, rng: random.Random, want_equal: bool = False):
+    """an object that is NOT a member of the list and can be put into it; preferably one that compares equal to a member"""
+    mem_ids = {id(m._element) for m in members}
+    pool: list = []
+    if rel.contain:
+        anc = set()
+        e = rel.owner._element
+        while e is not None:
+            anc.add(id(e))
+            e = e.getparent()
+        for el in rng.sample(owners, min(len(owners), 8)):
+            if el is rel.owner._element:
+                continue
+            for r in eq_relations_of(model, el):
+                if r.acc is not rel.acc:
+                    continue
+                if SAME_RESOURCE_MOVES:
+                    ff = model._loader.find_fragment
+                    try:
+                        if ff(r.owner._element).parts[0] != ff(rel.owner._element).parts[0]:
+                            continue
+                    except ValueError:
+                        continue
+                try:
+                    pool += [m for m in r.get() if id(m._element) not in anc and id(m._element) not in mem_ids]
+                except Exception:
+                    continue
+    else:
+        classes = {type(m) for m in members if overrides_eq(type(m))}
+        for c in classes:
+            try:
+                pool += [o for o in model.search(c) if id(o._element) not in mem_ids]
+            except Exception:
+                continue
+        if not pool:
+            pool = [o for o in candidates_for(model, rel, rng) if id(o._element) not in mem_ids]
+    if not pool:
+        return None
+    equal = [d for d in pool if any(m == d for m in members)]
+    if equal and (want_equal or rng.random() < 0.7):
+        return rng.choice(equal)
+    if want_equal:
+        same = [d for d in pool if any(type(d) is type(m) for m in members)]
+        return rng.choice(same) if same else None
+    return rng.choice(pool)
